@@ -98,7 +98,9 @@ def run_ebpf(rep, src_dir, tier, workdir):
         configs = [(2, 4, 2), (3, 4, 3)]
         cap = 420
     else:
-        configs = [(2, 4, 2), (3, 6, 3), (3, 6, 2), (4, 6, 2)]
+        # measured on 16 cores: (3,6,3) and (3,6,2) finish every property within 25 minutes; (4,6,2) and (4,5,2) do not finish single
+        # properties within 50 minutes and are therefore not part of any claim (a timeout is never reported as success)
+        configs = [(2, 4, 2), (3, 4, 3), (3, 6, 3), (3, 6, 2)]
         cap = 3000
     rep.bounds["ebpf_schedules"] = ["%d attempts, %d hook invocations, %d slots per map" % c for c in configs]
     jobs = []
